@@ -5,6 +5,8 @@ import (
 	"fmt"
 	"testing/iotest"
 
+	"github.com/wkhere/bcl"
+
 	"verif/mc/bc"
 	"verif/mc/fw"
 	"verif/mc/gen"
@@ -61,9 +63,13 @@ func loadPrefix(d []byte, mode string) (err error, panicked string) {
 		}
 	}()
 	var r = bytes.NewReader(d)
-	if mode == "byte" {
+	switch mode {
+	case "byte":
 		_, err, _, _ = impl.Load(iotest.OneByteReader(r))
-	} else {
+	case "disasm":
+		// with the disassembly option on: a failed load must not be disassembled
+		_, err, _, _ = impl.Load(r, bcl.OptDisasm(true), bcl.OptStats(true), bcl.OptTrace(true))
+	default:
 		_, err, _, _ = impl.Load(r)
 	}
 	return err, ""
@@ -192,7 +198,7 @@ func init() {
 		ID:    "C13",
 		Level: "fault_enumeration",
 		Rule: "for every accepted program of the core corpus K and the scaled families S: every cut point 0..len-1 of its dump " +
-			"(quick: all cuts for dumps <=4 kB, section boundaries ±9 / first+last 64 / every 97th for larger ones), delivered whole and one byte per read; " +
+			"(quick: all cuts for dumps <=4 kB, section boundaries ±9 / first+last 64 / every 97th for larger ones), delivered whole, one byte per read, and whole with the disassembly/trace/statistics options on; " +
 			"all 2^16 magic values and 2^16 version pairs. A case is a (program, delivery, cut range); non-trivial = at least one load executed; " +
 			"counters.cut_points counts the loads of proper prefixes.",
 		Subs:           []*fw.Sub{subC13Cuts, subC13Header},
@@ -233,7 +239,10 @@ func init() {
 					stride = 7
 					c.Cap("dumps >200 kB: every 7th cut + section boundaries")
 				}
-				for _, mode := range []string{"whole", "byte"} {
+				for _, mode := range []string{"whole", "byte", "disasm"} {
+					if mode == "disasm" && len(d) > 20000 {
+						continue
+					}
 					for from := 0; from < len(d); from += chunk {
 						if c.Expired() {
 							return
